@@ -12,6 +12,7 @@
 #include <string.h>
 #include <stdatomic.h>
 #include <limits.h>
+#include <errno.h>
 #include <stdlib.h>
 #include <sys/mman.h>
 
@@ -22,7 +23,7 @@ static inline void ts_acq(void *p) { if (__tsan_acquire) __tsan_acquire(p); }
 static inline void ts_rel(void *p) { if (__tsan_release) __tsan_release(p); }
 
 #define MAXT 48
-enum { ST_FREE = 0, ST_RUN, ST_WANT_LOCK, ST_WAIT_COND, ST_WAIT_JOIN, ST_EXITED };
+enum { ST_FREE = 0, ST_RUN, ST_WANT_LOCK, ST_WAIT_COND, ST_WAIT_JOIN, ST_EXITED, ST_WAIT_ONCE };
 
 struct smutex { uint32_t magic; int32_t owner; };	/* lives inside pthread_mutex_t */
 struct scond { uint32_t magic; uint32_t pad; };		/* lives inside pthread_cond_t */
@@ -39,6 +40,8 @@ struct sthread {
 	void *(*fn)(void *);
 	void *arg;
 	int joined;
+	int timed;		/* waiting in cond_timedwait: may be ended by a timeout */
+	int timedout;
 	int routine;
 	unsigned epoch;
 	int64_t prio;
@@ -65,6 +68,9 @@ static struct {
 	int rr_left;
 	uint64_t abs_seen[512];
 	sim_sched_fatal_fn fatal;
+	void *adopted[64];	/* statically / really initialised objects taken over while active; zeroed again at the end */
+	size_t adopted_sz[64];
+	int n_adopted;
 } G;
 
 static __thread int tls_tid = -1;
@@ -136,6 +142,7 @@ static inline int enabled(int i)
 	case ST_RUN: return 1;
 	case ST_WANT_LOCK: return ((struct smutex *)t->obj)->owner < 0;
 	case ST_WAIT_JOIN: return G.t[t->join_target].state == ST_EXITED;
+	case ST_WAIT_ONCE: return *(volatile int *)t->obj == 2;
 	default: return 0;
 	}
 }
@@ -176,6 +183,7 @@ static int pick(int me)
 		if (nw) {
 			struct sthread *t = &G.t[w[prng_below(&G.rng, nw)]];
 			t->state = ST_WANT_LOCK; t->obj = t->mtx;
+			if (t->timed) { t->timedout = 1; G.st.timeouts++; }
 			G.st.spurious++;
 		}
 	}
@@ -189,8 +197,16 @@ static int pick(int me)
 
 	for (int i = 0; i < G.nt; i++)
 		if (enabled(i)) en[n++] = i;
-	if (n == 0)
-		fatal("DEADLOCK");
+	if (n == 0) {
+		/* nothing can run: a timed wait ends by timeout before that counts as a deadlock */
+		for (int i = 0; i < G.nt && n == 0; i++)
+			if (G.t[i].state == ST_WAIT_COND && G.t[i].timed) {
+				G.t[i].state = ST_WANT_LOCK; G.t[i].obj = G.t[i].mtx; G.t[i].timedout = 1;
+				G.st.timeouts++;
+				if (enabled(i)) en[n++] = i;
+			}
+		if (n == 0) fatal("DEADLOCK");
+	}
 	for (int k = 0; k < n; k++) {
 		int i = en[k];
 		if (G.step < G.starve_until && i == G.starve_victim) continue;
@@ -233,7 +249,7 @@ static int pick(int me)
 
 	struct sthread *t = &G.t[next];
 	if (t->state == ST_WANT_LOCK) { ((struct smutex *)t->obj)->owner = next; t->state = ST_RUN; }
-	else if (t->state == ST_WAIT_JOIN) t->state = ST_RUN;
+	else if (t->state == ST_WAIT_JOIN || t->state == ST_WAIT_ONCE) t->state = ST_RUN;
 	note_abs_state();
 	return next;
 }
@@ -252,6 +268,39 @@ void sim_yield(void)
 {
 	if (!G.active || tls_tid < 0) return;
 	schedule();
+}
+
+/* A mutex or condition variable that is all zero bytes is one with a static initialiser, or one initialised
+ * by the real libpthread (default attributes) before the scheduler became active: take it over, and give it
+ * back (all zero again) at sim_sched_end. */
+static int all_zero(const void *p, size_t n)
+{
+	const unsigned char *c = p;
+	for (size_t i = 0; i < n; i++) if (c[i]) return 0;
+	return 1;
+}
+static void adopt(void *obj, size_t sz)
+{
+	if (G.n_adopted < 64) { G.adopted[G.n_adopted] = obj; G.adopted_sz[G.n_adopted++] = sz; }
+}
+static struct smutex *mtx_of(pthread_mutex_t *m, const char *misuse)
+{
+	struct smutex *s = (struct smutex *)m;
+	if (s->magic != MMAGIC) {
+		if (!all_zero(m, sizeof *m)) fatal(misuse);
+		s->magic = MMAGIC; s->owner = -1;
+		adopt(m, sizeof *m);
+	}
+	return s;
+}
+static void cond_of(pthread_cond_t *c, const char *misuse)
+{
+	struct scond *s = (struct scond *)c;
+	if (s->magic != CMAGIC) {
+		if (!all_zero(c, sizeof *c)) fatal(misuse);
+		s->magic = CMAGIC;
+		adopt(c, sizeof *c);
+	}
 }
 
 /* ---- mutex ---- */
@@ -273,14 +322,23 @@ int sim_pthread_mutex_destroy(pthread_mutex_t *m)
 int sim_pthread_mutex_lock(pthread_mutex_t *m)
 {
 	if (!G.active) return pthread_mutex_lock(m);
-	struct smutex *s = (struct smutex *)m;
+	struct smutex *s = mtx_of(m, "MUTEX-MISUSE-lock-uninit");
 	struct sthread *t = &G.t[tls_tid];
-	if (s->magic != MMAGIC) fatal("MUTEX-MISUSE-lock-uninit");
 	if (s->owner == tls_tid) fatal("MUTEX-MISUSE-relock");
 	if (s->owner >= 0) G.st.lock_contended++;
 	t->state = ST_WANT_LOCK; t->obj = m;
 	schedule();
 	/* picked: pick() made us owner */
+	ts_acq(m);
+	return 0;
+}
+int sim_pthread_mutex_trylock(pthread_mutex_t *m)
+{
+	if (!G.active) return pthread_mutex_trylock(m);
+	struct smutex *s = mtx_of(m, "MUTEX-MISUSE-lock-uninit");
+	schedule();
+	if (s->owner >= 0) return EBUSY;
+	s->owner = tls_tid;
 	ts_acq(m);
 	return 0;
 }
@@ -311,12 +369,11 @@ int sim_pthread_cond_destroy(pthread_cond_t *c)
 	((struct scond *)c)->magic = 0;
 	return 0;
 }
-int sim_pthread_cond_wait(pthread_cond_t *c, pthread_mutex_t *m)
+static int cond_wait_common(pthread_cond_t *c, pthread_mutex_t *m, int timed)
 {
-	if (!G.active) return pthread_cond_wait(c, m);
 	struct smutex *s = (struct smutex *)m;
 	struct sthread *t = &G.t[tls_tid];
-	if (((struct scond *)c)->magic != CMAGIC) fatal("COND-MISUSE-wait-uninit");
+	cond_of(c, "COND-MISUSE-wait-uninit");
 	if (s->magic != MMAGIC || s->owner != tls_tid) fatal("COND-MISUSE-wait-unowned");
 	G.st.cond_waits++;
 	/* a real thread can be preempted between testing its predicate and
@@ -325,10 +382,21 @@ int sim_pthread_cond_wait(pthread_cond_t *c, pthread_mutex_t *m)
 	schedule();
 	ts_rel(m);
 	s->owner = -1;
-	t->state = ST_WAIT_COND; t->obj = c; t->mtx = m;
+	t->state = ST_WAIT_COND; t->obj = c; t->mtx = m; t->timed = timed; t->timedout = 0;
 	schedule();
 	ts_acq(m);
-	return 0;
+	t->timed = 0;
+	return t->timedout ? ETIMEDOUT : 0;
+}
+int sim_pthread_cond_wait(pthread_cond_t *c, pthread_mutex_t *m)
+{
+	if (!G.active) return pthread_cond_wait(c, m);
+	return cond_wait_common(c, m, 0);
+}
+int sim_pthread_cond_timedwait(pthread_cond_t *c, pthread_mutex_t *m, const struct timespec *ts)
+{
+	if (!G.active) return pthread_cond_timedwait(c, m, ts);
+	return cond_wait_common(c, m, 1);
 }
 static int wake_one(pthread_cond_t *c)
 {
@@ -343,7 +411,7 @@ static int wake_one(pthread_cond_t *c)
 int sim_pthread_cond_signal(pthread_cond_t *c)
 {
 	if (!G.active) return pthread_cond_signal(c);
-	if (((struct scond *)c)->magic != CMAGIC) fatal("COND-MISUSE-signal-uninit");
+	cond_of(c, "COND-MISUSE-signal-uninit");
 	G.st.signals++;
 	int nw = wake_one(c);
 	if (!nw) G.st.signals_lost++;
@@ -357,6 +425,7 @@ int sim_pthread_cond_signal(pthread_cond_t *c)
 int sim_pthread_cond_broadcast(pthread_cond_t *c)
 {
 	if (!G.active) return pthread_cond_broadcast(c);
+	cond_of(c, "COND-MISUSE-signal-uninit");
 	while (wake_one(c)) ;
 	schedule();
 	return 0;
@@ -431,6 +500,38 @@ int sim_pthread_join(pthread_t th, void **ret)
 	return pthread_join(th, ret);
 }
 
+int sim_pthread_detach(pthread_t th)
+{
+	if (!G.active) return pthread_detach(th);
+	for (int i = 1; i < G.nt; i++)
+		if (!G.t[i].joined && pthread_equal(G.t[i].real, th)) { G.t[i].joined = 1; return pthread_detach(th); }
+	fatal("DETACH-UNKNOWN-THREAD");
+	return 0;
+}
+
+/* pthread_once_t is an int; 0 = not run, 2 = done (glibc's own value for done, so the flag stays valid for
+ * the real pthread_once after the run) */
+int sim_pthread_once(pthread_once_t *once, void (*fn)(void))
+{
+	if (!G.active) return pthread_once(once, fn);
+	volatile int *o = (volatile int *)once;
+	schedule();
+	if (*o == 2) { ts_acq((void *)once); return 0; }
+	if (*o == 0) {
+		*o = 1;
+		fn();
+		ts_rel((void *)once);
+		*o = 2;
+		schedule();
+		return 0;
+	}
+	struct sthread *t = &G.t[tls_tid];
+	t->state = ST_WAIT_ONCE; t->obj = (void *)once;
+	schedule();
+	ts_acq((void *)once);
+	return 0;
+}
+
 static int prev_unjoined;
 void sim_sched_begin(const struct sim_sched_cfg *cfg)
 {
@@ -472,6 +573,7 @@ void sim_sched_end(struct sim_sched_stats *out)
 	G.st.unjoined = unjoined;
 	prev_unjoined = unjoined;
 	if (out) *out = G.st;
+	for (int i = 0; i < G.n_adopted; i++) memset(G.adopted[i], 0, G.adopted_sz[i]);
 	G.active = 0;
 	tls_tid = -1;
 }
